@@ -146,4 +146,33 @@ def decodeAll (ms : List (List Char)) : List (Ident × Bool) :=
 def getAll (c : Cfg) (s : State) (h : Bytes) : List (Ident × Bool) :=
   collapse (decodeAll ((s.entries.filter fun e => e.hash = h ∧ queried c s.now e.window).map (·.member))) []
 
+/-! ### sampling: GetPeers(h, n) in general
+
+  The windows are visited in a shuffled order; each visit asks `SRANDMEMBER key (n - len(selected))`,
+  which returns that many distinct random members of the set (all of them if it has fewer), and folds
+  the decoded members into `selected`; the loop stops when `n` identities are selected or every window
+  was visited.  A *visit* is (window, picked members); `ValidFrom` says when a sequence of visits is a
+  possible execution, `getSample` is what it returns. -/
+
+/-- the Redis set of torrent `h`, window `w` -/
+def members (s : State) (h : Bytes) (w : Nat) : List (List Char) :=
+  (s.entries.filter fun e => e.hash = h ∧ e.window = w).map (·.member)
+
+def visit (sel : List (Ident × Bool)) (picks : List (List Char)) : List (Ident × Bool) :=
+  collapse (decodeAll picks) sel
+
+def sampleFrom (sel : List (Ident × Bool)) (visits : List (Nat × List (List Char))) : List (Ident × Bool) :=
+  visits.foldl (fun sel v => visit sel v.2) sel
+
+def getSample (visits : List (Nat × List (List Char))) : List (Ident × Bool) := sampleFrom [] visits
+
+def ValidFrom (c : Cfg) (s : State) (h : Bytes) (n : Nat) :
+    List (Ident × Bool) → List Nat → List (Nat × List (List Char)) → Prop
+  | sel, visited, [] => n ≤ sel.length ∨ ∀ w, queried c s.now w = true → w ∈ visited ∨ members s h w = []
+  | sel, visited, (w, picks) :: rest =>
+    sel.length < n ∧ queried c s.now w = true ∧ w ∉ visited ∧ picks.Nodup ∧
+    (∀ m, m ∈ picks → m ∈ members s h w) ∧
+    picks.length = min (n - sel.length) (members s h w).length ∧
+    ValidFrom c s h n (visit sel picks) (w :: visited) rest
+
 end KrakenModel.RedisPeerStore
